@@ -16,6 +16,14 @@ KIND_NAME = {"type": "type", "proc": "function", "param": "parameter", "var": "v
 # ---------------------------------------------------------------------------------------------
 # generators
 
+TAILS = ["// t", "\n// a\n// b\n", "  // \u00e9\U0001F600\r\n//x", "\n\n//\n", " //\r\n", "\n// last \u20ac"]
+
+
+def with_tail(text, rng, p=0.3):
+    """comments behind the last declaration (they belong to no declaration: the trailing slice of the handler)"""
+    return text + rng.choice(TAILS) if rng.random() < p else text
+
+
 def gen_valid(rng, n):
     """well-typed programs in random layouts: (tag, text, prog)"""
     out = []
@@ -29,7 +37,7 @@ def gen_valid(rng, n):
             text = L.render_program(prog, rng, comments=0.3, newline=nl)
         else:
             text = L.render_program(prog, rng, comments=0.08, newline=nl)
-        out.append(("valid", text, prog))
+        out.append(("valid", with_tail(text, rng), prog))
     return out
 
 
@@ -105,8 +113,9 @@ def gen_shadow(rng, n):
             continue
         di, victim, tn = rng.choice(cands)
         prog2 = prog[:di] + [_rename_local(prog[di], victim, tn)] + prog[di + 1:]
-        text = L.render_program(prog2, rng, comments=0.05, newline=rng.choice(["\n", "\r\n"]))
-        out.append(("shadow", text, prog2))
+        # also with many comments: between `:` / `of` and the type name the handler has to skip them
+        text = L.render_program(prog2, rng, comments=rng.choice([0.05, 0.05, 0.5]), newline=rng.choice(["\n", "\r\n"]))
+        out.append(("shadow", with_tail(text, rng), prog2))
     return out
 
 
@@ -125,14 +134,25 @@ def gen_malformed(rng, n):
     return out
 
 
-# the witness of Props/C15.v C15_full_statement_refuted (replayed on the implementation on every run) and the
-# minimal witness of the trailing-comment finding
+# the witnesses of the repaired defects C15-type-use-shadowed-by-local (b909979) and C15-trailing-comment (e4d8780),
+# with their derivations: replayed through correspondence AND the classification oracle on every run (they are also in
+# corpus/C15 with the demanded streams, and Examples of Props/C15.v)
+_MAIN = ("proc", "main", [], [], [])
 FIXED_WITNESSES = [
     ("shadow", "type t = int; proc p(t: t) { } proc main() { }",
-     [("type", "t", ("named", "int")), ("proc", "p", [(False, "t", ("named", "t"))], [], []), ("proc", "main", [], [], [])]),
-    ("valid", "proc main() { } // x", [("proc", "main", [], [], [])]),
+     [("type", "t", ("named", "int")), ("proc", "p", [(False, "t", ("named", "t"))], [], []), _MAIN]),
+    ("shadow", "type t = int; proc p(t: t) { t := 1; }\nproc main() {}",
+     [("type", "t", ("named", "int")),
+      ("proc", "p", [(False, "t", ("named", "t"))], [], [("assign", ("name", "t"), ("lit", "1"))]), _MAIN]),
+    ("shadow", "proc main() { var int: int; }", [("proc", "main", [], [("int", ("named", "int"))], [])]),
+    ("shadow", "type t = int; proc main() { var a: array [2] of t; var t: array [3] of // d\n t; t[0] := a[1]; }",
+     [("type", "t", ("named", "int")),
+      ("proc", "main", [], [("a", ("array", "2", ("named", "t"))), ("t", ("array", "3", ("named", "t")))],
+       [("assign", ("index", ("name", "t"), ("lit", "0")), ("var", ("index", ("name", "a"), ("lit", "1"))))])]),
+    ("valid", "proc main() { } // x", [_MAIN]),
+    ("valid", "proc main() { } // tail\n// tail2", [_MAIN]),
+    ("valid", "// head\nproc main() { }\n\n// tail \u00e9\u20ac\U0001F600 x\r\n  // last", [_MAIN]),
 ]
-
 
 # ---------------------------------------------------------------------------------------------
 # running the implementation
@@ -203,6 +223,7 @@ def classify_diffs(dec, idxs, exp, toks, by_tok, infos, flat_idx):
         where = "%d:%d %r" % (k["line"], k["col"], k["text"])
         part = "b" if k["cls"] == "ident" else "a"
         if i not in got:
+            # class of the former known finding (repaired in e4d8780; a VIOLATION unless listed as `known` again)
             cid = "C15-trailing-comment" if (k["cls"] == "comment" and i > last_real) else None
             out.append((cid, "%s (%s) is missing from the stream" % (where, want[i][0]), part))
         elif i not in want:
@@ -210,6 +231,7 @@ def classify_diffs(dec, idxs, exp, toks, by_tok, infos, flat_idx):
         elif got[i] != want[i]:
             cid = None
             o = by_tok.get(i)
+            # class of the former known finding (repaired in b909979; a VIOLATION unless listed as `known` again)
             if o is not None and o["role"] == "type_use" and infos[o["decl"]]["kind"] == "proc" \
                     and o["name"] in infos[o["decl"]]["locals"] and want[i][0] == "type" \
                     and got[i][0] in ("parameter", "variable"):
@@ -277,7 +299,7 @@ def run(ctx):
     mism = []
     hist = {"valid": 0, "shadow": 0, "damaged": 0, "soup": 0, "unicode": 0, "corpus": 0, "crlf": 0, "non_ascii": 0,
             "with_comments": 0, "empty_stream": 0, "tokens_reported": 0, "declaration_bits": 0, "mute": 0,
-            "model_wf_false": 0}
+            "model_wf_false": 0, "trailing_comments_checked": 0, "shadowed_type_uses_checked": 0}
     types_seen = {}
     spec_hist, spec_disagree = {}, []
     wf_false = []
@@ -345,6 +367,12 @@ def run(ctx):
             if spec_flag != py_flag and obs == mod:
                 spec_disagree.append((n, spec_flag, py_flag))
             diffs = [(cid, d) for cid, d, _ in diffs]
+            # how often the two repaired classes were exercised (former known findings)
+            last_real = max([i for i, k in enumerate(toks) if k["cls"] not in ("comment", "eof")], default=-1)
+            hist["trailing_comments_checked"] += sum(1 for i, k in enumerate(toks) if k["cls"] == "comment" and i > last_real)
+            hist["shadowed_type_uses_checked"] += sum(
+                1 for o in by_tok.values() if o["role"] == "type_use" and infos[o["decl"]]["kind"] == "proc"
+                and o["name"] in infos[o["decl"]]["locals"])
             new = [d for cid, d in diffs if cid is None or cid not in known_ids]
             for cid, d in diffs:
                 if cid is not None and cid in known_ids:
@@ -418,20 +446,25 @@ def run(ctx):
 
 
 EXPLANATION = (
-    "PROVED for all documents (Props/C15.v over the model Model/SemTok.v of semantic_tokens.rs), under the explicit executable "
-    "well-formedness predicate doc_wf_b (tokens ordered / sliceable on character boundaries / not starting at a line terminator; "
-    "declarations in source order with in-bounds ranges; declaration names end with an identifier token): C15_no_panic (no slice panic, "
-    "no u32 underflow), C15_coincide (the decoded stream is the image of an order-preserving subsequence of the document's tokens: each "
-    "decoded token = position of the first byte and UTF-16 length of one lexical token), C15_increasing (strictly increasing positions), "
-    "C15_disjoint (pairwise disjoint byte ranges), C15_lexical_class + C15_lexical_complete (keywords/numbers/comments inside declarations "
-    "are reported with exactly their class, nothing but identifiers otherwise), C15_tokens_wf (token half of doc_wf_b for every output of "
-    "lex), C15_decls_ordered (ordering half for every output of parse), C15_new_doc_wf / C15_new_doc_stream (build and analyze keep "
-    "offsets and ranges: for AnalyzedSource::new outputs doc_wf_b reduces to the name condition decls_names_b). "
-    "C15_full_statement (classification of every identifier by the class of its binding, declaration bit on declared names, every "
-    "keyword/number/comment reported) is stated on the model and REFUTED (C15_full_statement_refuted) by the witness of the known finding "
-    "C15-type-use-shadowed-by-local. VALIDATED only (correspondence + oracle): that the model is the code; decls_names_b for parser "
-    "outputs (the judge computes doc_wf_b on every case: always 1); the classification of identifiers outside the two known classes "
-    "(python oracle from splscope and the Coq statement decided per document by the judge, in agreement).")
+    "PROVED for all documents (Props/C15.v over the model Model/SemTok.v of semantic_tokens.rs as of /repo e4d8780), under the explicit "
+    "executable well-formedness predicate doc_wf_b (tokens ordered / sliceable on character boundaries / not starting at a line terminator; "
+    "declarations in source order with in-bounds ranges; the program's range ends at or behind the last declaration, where the trailing "
+    "slice starts; declaration names end with an identifier token): C15_no_panic (no slice panic, no u32 underflow), C15_coincide (the "
+    "decoded stream is the image of an order-preserving subsequence of the document's tokens: each decoded token = position of the first "
+    "byte and UTF-16 length of one lexical token), C15_increasing (strictly increasing positions), C15_disjoint (pairwise disjoint byte "
+    "ranges), C15_lexical_class + C15_lexical_complete (keywords/numbers/comments inside declarations AND in the trailing slice behind the "
+    "last declaration are reported with exactly their class, nothing but identifiers otherwise), C15_tokens_wf (token half of doc_wf_b for "
+    "every output of lex), C15_decls_ordered (ordering half for every output of parse, incl. the end of the program's range), "
+    "C15_new_doc_wf (build and analyze keep offsets and ranges: for AnalyzedSource::new outputs doc_wf_b reduces to the name condition "
+    "decls_names_b), C15_new_doc_covered (declarations + trailing slice tile the token vector), C15_new_doc_stream and "
+    "C15_lexical_reported_everywhere (= part (a) of C15_full_statement without its no-diagnostics hypothesis: EVERY keyword/number/comment "
+    "token of the document is in the answer with its class). The former refutation C15_full_statement_refuted is gone with the repairs "
+    "b909979 (identifiers in type expressions of a procedure are looked up globally) and e4d8780 (trailing comments): its witness and the "
+    "witnesses of the two former known findings now evaluate to the demanded streams (Examples C15_example_type_use / _int_hidden / "
+    "_trailing, corpus/C15, FIXED_WITNESSES). NOT PROVED, VALIDATED only (correspondence + oracle): that the model is the code; "
+    "decls_names_b for parser outputs (the judge computes doc_wf_b on every case: always 1); part (b) of C15_full_statement, the "
+    "classification of every identifier by the class of its binding with the declaration bit exactly on declared names (python oracle "
+    "from splscope and the Coq statement decided per document by the judge, in agreement; no counterexample on the repaired code).")
 
 
 def replay(ctx, path):
